@@ -207,6 +207,15 @@ static void build_catalogue()
 			else if(nr != nc)
 				R("Trace of non-square" + tg, [=] { Matrix M = mat(3, 3); M.Resize(nr, nc); return M.Trace(); });
 		}
+	// matrices without rows or columns (defects D32/D33, found by the fuzzing step): the index guard must hold for them too
+	A("Matrix from an empty list is the 0x0 matrix", [] { Matrix M(std::vector<std::vector<double>> {}); return (double) (M.Rows() + M.Columns()); });
+	R("Matrix(0,3)[0]", [] { Matrix M(0, 3); return M[0][0]; });
+	R("Matrix(0,3)[0] const", [] { const Matrix M(0, 3); return M[0].size() ? M[0][0] : 1.0; });
+	R("Matrix[] after Resize(0,2)", [] { Matrix M = mat(3, 3); M.Resize(0, 2); M[0][0] = 1.0; return M[0][0]; });
+	R("Matrix[] after deleting the only row", [] { Matrix M = mat(1, 3); M.Delete_Row(0); return M[0][0]; });
+	R("Matrix from an empty list [0]", [] { Matrix M(std::vector<std::vector<double>> {}); return M[0][0]; });
+	A("Vector(0) has size 0", [] { Vector v(0); return (double) v.Size(); });
+	R("Vector(0)[0]", [] { Vector v(0); return v[0]; });
 	A("Determinant after Resize(5x5 -> 4x4)", [] { Matrix M = mat(5, 5); for(int i = 0; i < 5; i++) M[i][i] += 9.0; M.Resize(4, 4); return M.Determinant(); });
 	A("Inverse after Resize(5x5 -> 3x3)", [] { Matrix M = mat(5, 5); for(int i = 0; i < 5; i++) M[i][i] += 9.0; M.Resize(3, 3); return msum(M.Inverse()); });
 	A("Vector ops after Resize(3 -> 5)", [] { Vector v(3, 1.0); v.Resize(5); v[4] = 2.0; Vector w(5, 1.0); return (v + w)[4] + v.Dot(w); });
